@@ -7,7 +7,7 @@ from .guardlib import gval, comparisons, lt_true, ge_true
 
 MANIFEST = {
     "text": "Pairing and provenance rules on Utf8LossyDecoder (and LossyDecoder's plumbing): every U+FFFD handed to the inner sink is immediately preceded by exactly one error report and vice versa; unchecked reinterpretation is applied only to the whole chunk on the decode-Ok edge or to subtendril(0, valid_prefix.len()); finish() reports a pending incomplete sequence exactly when one is stored; the position at which decoding resumes after an invalid sequence is valid_prefix + the whole invalid sequence. Plus equality of stream.rs / utf8_decode.rs / futf.rs functions and the from_utf8 drivers with their reviewed normal forms. Thorough tier, all-features pass: the encoding_rs path of LossyDecoder flushes with last = true at finish, pairs one error with each U+FFFD, reinterprets only decoder-written bytes as UTF-8, advances by bytes_read and leaves its loop only on InputEmpty or empty input (R10.6).",
-    "note": 'Decides R10.1-R10.5 (and R10.6 in the thorough tier). The maximal-subpart classification is delegated to std::str::from_utf8 (error_len), which is trusted. Not decided: the offset arithmetic of try_complete_offsets beyond equality with its reviewed normal form; encoding_rs itself. Also decided: the accounting of try_complete_offsets - input advances by new minus old stored length, a malformed completion keeps exactly error_len bytes (R10.7).',
+    "note": 'Decides R10.1-R10.5 (and R10.6 in the thorough tier). The maximal-subpart classification is delegated to std::str::from_utf8 (error_len), which is trusted. Not decided: the offset arithmetic of try_complete_offsets beyond equality with its reviewed normal form; encoding_rs itself. Also decided: the accounting of try_complete_offsets - input advances by new minus old stored length, a malformed completion keeps exactly error_len bytes (R10.7). Round 6 (thorough tier): at end of stream only InputEmpty ends decode_to_sink’s loop (R10.6, defect F24 fixed), constructors keep the caller’s decoder (R10.9).',
     "technique": 'pairing / def-use rules over function normal forms + reviewed normal-form comparison',
 }
 LEVEL = "other"
